@@ -553,6 +553,17 @@ where
         Ok((_, b)) => b,
         Err(e) => return format!("load ser-{}", e),
     };
+    // the destination may exist already, and be longer than what is stored now: storing must replace it
+    // (every other case pre-creates an 8 KiB file, or a 1-byte one)
+    {
+        use std::sync::atomic::{AtomicUsize, Ordering};
+        static N: AtomicUsize = AtomicUsize::new(0);
+        match N.fetch_add(1, Ordering::Relaxed) % 3 {
+            0 => { let _ = std::fs::write(&path, vec![0xAAu8; 8192]); }
+            1 => { let _ = std::fs::write(&path, [0xAAu8]); }
+            _ => {}
+        }
+    }
     if let Err(e) = v.store(&path) {
         return format!("load store-err {:?}", e);
     }
